@@ -231,7 +231,22 @@ def add_status_shard():
         res.violation('registration-not-seen-by-other-thread', 'C18.add-status',
                       'a thread that had looked 0x3400/0x3401 up before they were registered sees %r '
                       'afterwards (before: %r)' % (seen.get('after'), seen.get('before')), case)
+    # a range registered over codes that were registered singly before (and over built-in single
+    # codes): after add_status(first, T, end=last) every code first..last is of type T on that level;
+    # a single code registered inside a range afterwards changes that code only
+    statuses.add_status(0x3500, 'Warning', 'single first', command=store)
+    statuses.add_status(0x3500, 'Cancel', 'range later', end=0x350F, command=store)
+    statuses.add_status(0x3505, 'Warning', 'single inside, later', command=store)
+    statuses.add_status(0x3600, 'Warning', 'single first')
+    statuses.add_status(0x35F0, 'Pending', 'range later', end=0x360F)
+    statuses.add_status(0xB000, 'Cancel', 'range over built-in single codes', end=0xB0FF, command=store)
     probes = [
+        (0x3500, store, 'Cancel'), (0x3504, store, 'Cancel'), (0x3505, store, 'Warning'),
+        (0x3506, store, 'Cancel'), (0x350F, store, 'Cancel'), (0x3510, store, 'Failure'),
+        (0x3600, None, 'Pending'), (0x35F0, None, 'Pending'), (0x360F, None, 'Pending'),
+        (0x3610, None, 'Failure'), (0xB000, store, 'Cancel'), (0xB006, store, 'Cancel'),
+        (0xB007, store, 'Cancel'), (0xB0FF, store, 'Cancel'), (0xB100, store, 'Failure'),
+        (0xB000, find, 'Failure'),
         (0x3300, find, 'Cancel'), (0x3301, None, 'Warning'), (0x3301, store, 'Warning'),
         (0x2FFF, store, 'Failure'), (0x3000, store, 'Warning'), (0x3008, store, 'Warning'),
         (0x3010, store, 'Warning'), (0x3011, store, 'Failure'), (0x3000, find, 'Failure'),
